@@ -360,8 +360,8 @@ impl Check for C05 {
     }
     fn runs(&self, tier: Tier) -> u64 {
         match tier {
-            Tier::Quick => 40_000,
-            Tier::Thorough => 2_000_000,
+            Tier::Quick => 600_000,
+            Tier::Thorough => 40_000_000,
         }
     }
     fn generate(&self, rng: &mut Rng, _tier: Tier, _idx: u64) -> Scn {
